@@ -16,10 +16,11 @@ import ExecnetVerif.Driver.NetCheck
 import ExecnetVerif.Driver.NetFineIO
 import ExecnetVerif.Driver.PoolIO
 import ExecnetVerif.Driver.GateIO
+import ExecnetVerif.Driver.MakeConcIO
 
 open ExecnetVerif
 
-def handlers : List (List String → Option String) := [serHandle, chanFileHandle, xspecHandle, groupHandle, rsyncHandle, bootHandle, rexecHandle, exitHandle, termHandle, frameHandle, Net.netHandle, Net.netCheckHandle, Net.netFineHandle, poolHandle, gateHandle]
+def handlers : List (List String → Option String) := [serHandle, chanFileHandle, xspecHandle, groupHandle, rsyncHandle, bootHandle, rexecHandle, exitHandle, termHandle, frameHandle, Net.netHandle, Net.netCheckHandle, Net.netFineHandle, poolHandle, gateHandle, mkConcHandle]
 
 def dispatch (line : String) : String :=
   let toks := (line.splitOn " ").filter (· ≠ "")
